@@ -187,11 +187,11 @@ func DroppedScripts() []string { Tags(); return tagsDropped }
 
 // Site names of Info-level overflow classes.
 const (
-	SiteFeatureOffset    = "FeatureList.featureOffset"   // feature table beyond 64 KiB (library refuses)
-	SiteFeatureLookups   = "Feature.lookupIndexCount"    // more than 65535 lookup indices in one feature
-	SiteLangSysOffset    = "ScriptList.langSysOffset"    // language system beyond 64 KiB of its script table
-	SiteScriptOffset     = "ScriptList.scriptOffset"     // script table beyond 64 KiB of the script list
-	SiteHeaderListOffset = "Info.lookupListOffset"       // script list + feature list exceed 64 KiB
+	SiteFeatureOffset    = "FeatureList.featureOffset" // feature table beyond 64 KiB (library refuses)
+	SiteFeatureLookups   = "Feature.lookupIndexCount"  // more than 65535 lookup indices in one feature
+	SiteLangSysOffset    = "ScriptList.langSysOffset"  // language system beyond 64 KiB of its script table
+	SiteScriptOffset     = "ScriptList.scriptOffset"   // script table beyond 64 KiB of the script list
+	SiteHeaderListOffset = "Info.lookupListOffset"     // script list + feature list exceed 64 KiB
 )
 
 // InfoOptions parametrises GenInfo (beyond the lookup Options).
